@@ -545,7 +545,7 @@ func c11Worker(sh *explore.Shard) {
 		}
 		var groups []sizes.RefGroup
 		if mask&(1<<8) != 0 { // reference_count visible: add group tallies
-			b, t, r := counts.Count32(50000), counts.Count32(3), counts.Count32(75000)
+			b, t, r := counts.NewCount32(50000), counts.NewCount32(3), counts.NewCount32(75000)
 			hs.ReferenceGroups["branches"] = &b
 			hs.ReferenceGroups["tags"] = &t
 			hs.ReferenceGroups["tags.rel"] = &r
